@@ -22,3 +22,4 @@ import PyodaProofs.C14
 #print axioms Pyoda.C14.read_write_yearOffset
 #print axioms Pyoda.C14.read_write_alternatingMap
 #print axioms Pyoda.C14.read_write_recurrence
+#print axioms Pyoda.C14.read_write_precalculatedZone
